@@ -778,8 +778,8 @@ pub const VAR_SELECTOR_NAMES: [&str; NUM_VAR_SELECTORS] = [
     "RandomSelector",
     "FirstFail+RandomTie",
     "Largest+RandomTie",
-    "MaxRegret+RandomTie(min)",
-    "Smallest+InOrder(max)",
+    "MaxRegret+RandomTie",
+    "Smallest+RandomTie",
 ];
 
 pub const NUM_VAL_SELECTORS: usize = 14;
@@ -836,13 +836,16 @@ pub fn var_selector(i: usize, vars: &[DomainId], seed: u64) -> DynamicVariableSe
         12 => Box::new(MaxRegret::with_tie_breaker(
             vars,
             RandomTieBreaker::new(
-                Direction::Minimum,
+                Direction::Maximum,
                 Box::new(SmallRng::seed_from_u64(seed)),
             ),
         )),
         13 => Box::new(Smallest::with_tie_breaker(
             vars,
-            InOrderTieBreaker::new(Direction::Maximum),
+            RandomTieBreaker::new(
+                Direction::Minimum,
+                Box::new(SmallRng::seed_from_u64(seed ^ 7)),
+            ),
         )),
         _ => panic!("harness: no such variable selector"),
     };
